@@ -694,6 +694,13 @@ def model_line(cfg, data, argt, value, path):
         cfg.ty, cfg.k, cfg.c, cfg.o, cfg.order, cfg.mode, path, hexs(data), argt, value)
 
 
+def struct_line(cfg, byte_off, store, argt, value, path):
+    """STRUCT op: the field's container at byte `byte_off` of the structure's backing store;
+    the model answers with the whole store afterwards (`storeTryToWrite`)."""
+    return "STRUCT %d %s %s %d %d %d %s %s %s %s %d" % (
+        byte_off, hexs(store), cfg.ty, cfg.k, cfg.c, cfg.o, cfg.order, cfg.mode, path, argt, value)
+
+
 def shape_argts(shape, r):
     if shape.ty in ("uint", "int"):
         return ["i64", "u64", r.choice(ARGT[:6])]
